@@ -319,10 +319,16 @@ MUTANTS = [
      "        district_without_interventions = set()\n"
      "        for variable, _ in factor:\n"
      "            district_without_interventions.add(variable.get_base())\n"),
-    ("h_other_valid_topo", "harmless", "Alg 4: another valid topological order of the same domain graph is used",
+    # The next two change WHICH of several equally valid expressions Algorithm 4 returns (another order of the chain rule /
+    # another usable domain).  For Algorithm 2 that is invisible (expressions are compared by exact value).  Algorithm 3,
+    # however, reads the SYNTAX of the expression: its returned event keeps a condition only if the expression mentions its
+    # vertex, and its final check 5 raises KeyError otherwise; so on inputs of the open findings crash:ctfTR-final-check /
+    # value:outcome-also-condition the verdict (answer vs KeyError) moves.  With the complete model of Algorithm 3 the
+    # correspondence reports the change (no failing input outside the known classes): `equiv`, not `harmless`.
+    ("h_other_valid_topo", "equiv", "Alg 4: another valid topological order of the same domain graph is used",
      "            domain_topo = domain_graphs[k][1]\n",
      "            domain_topo = domain_graph.topological_sort()\n"),
-    ("h_last_usable_domain", "harmless", "Alg 4: the LAST usable domain is taken instead of the first (any usable domain gives Q[C_i])",
+    ("h_last_usable_domain", "equiv", "Alg 4: the LAST usable domain is taken instead of the first (any usable domain gives Q[C_i])",
      "    for k in range(len(domain_graphs)):\n        # Also Line 1",
      "    for k in reversed(range(len(domain_graphs))):\n        # Also Line 1"),
     ("h_usable_test_swapped", "harmless", "Alg 4: the two conjuncts of the usability test evaluated in the other order",
